@@ -1,7 +1,7 @@
 """Stand-in for the cython-sgio binding (module name 'sgio').
 
 execute(file, cdb, data_out, data_in, max_sense_data_length=32, return_sense_buffer=False)
-  GOOD -> returns residual (0); CHECK CONDITION -> raises CheckConditionError carrying .sense;
+  GOOD -> returns the residual count (data-in bytes the device did not fill); CHECK CONDITION -> raises CheckConditionError carrying .sense;
   any other status -> UnspecifiedError.   The target is found through the inode of the open file.
 """
 import os
@@ -36,7 +36,11 @@ def execute(file, cdb, data_out, data_in, max_sense_data_length=32, return_sense
         raise UnspecifiedError("no target behind inode %d" % st.st_ino)
     status, sense = tgt.command(cdb, data_out, data_in, "sgio")
     if status == 0x00:
-        return (0, b"") if return_sense_buffer else 0
+        # the residual count of the transfer (SG_IO's resid): what the device did not fill of the data-in buffer
+        resid = 0
+        if data_in is not None and len(data_in) and tgt.log and "transferred" in tgt.log[-1]:
+            resid = len(data_in) - tgt.log[-1]["transferred"]
+        return (resid, b"") if return_sense_buffer else resid
     if status == 0x02:
         raise CheckConditionError(bytes(sense) if sense is not None else b"")
     raise UnspecifiedError("status %#04x" % status)
